@@ -23,7 +23,7 @@ Definition P_SUB_WARM := 2.    (* max_warm_peers - warm_peers.len()    promotion
 Definition P_SUB_HOT := 3.     (* max_hot_peers - hot_peers.len()      promotion.rs required_hot_peers *)
 Definition P_ERRC := 4.        (* error_count += 1 (u32)               mod.rs on_errored *)
 Definition P_SUB_HWM := 5.     (* high_water_mark - discovered.len()   discovery.rs request_peers *)
-Definition P_HS_ASSERT := 6.   (* assert!(handshake == Propose)        handshake.rs propose_handshake *)
+(* class 6 was the assert!(handshake == Propose) of handshake.rs propose_handshake, repaired in /repo 70b2de7a *)
 Definition P_LF_EXPECT := 7.   (* .expect("index just found")          leiosfetch.rs visit_housekeeping *)
 
 Definition usub (cls a b : Z) : outcome Z := if a <? b then Panic cls else Ok (a - b).
@@ -181,7 +181,7 @@ Definition v_hs_connected (p : Z) (v : vst) : outcome vst :=
   let '(a, s, out) := v in
   match hs s with
   | HsSPropose => Ok (emit (OSend p (HsPropose [(13, 764824073)])) v)
-  | _ => Panic P_HS_ASSERT
+  | _ => Ok v      (* handshake already progressed: warn and skip the proposal (was an assert! before the repair) *)
   end.
 (* handshake.rs visit_inbound_msg: needs_handshake / check_confirmation *)
 Definition v_hs_inbound (p : Z) (v : vst) : outcome vst :=
